@@ -60,10 +60,12 @@ func (ctx *Ctx) GenVC(fc *FuncContract) (res *FuncResult) {
 		}
 		t := vc.Fresh("p_"+p.Name(), srt)
 		fr.vals[p] = t
+		vc.paramTerms = append(vc.paramTerms, t)
 		entry.assume(vc.rangeAssumption(t, p.Type(), entry.alloc))
 		vc.inputs = append(vc.inputs, WatchTerm{p.Name(), t})
 	}
 	fr.entry = entry.clone()
+	vc.entryState = fr.entry
 	env := fr.baseEnv(entry)
 	env.old = entry
 	for _, rq := range fc.Requires {
@@ -80,6 +82,9 @@ func (ctx *Ctx) GenVC(fc *FuncContract) (res *FuncResult) {
 		return res
 	}
 	exit, results := fr.mergeReturns()
+	vc.entryState = fr.entry
+	vc.exitState = exit
+	vc.resultTerms = results
 	penv := fr.baseEnv(exit)
 	penv.old = fr.entry
 	bindResults(penv, fn.Signature, results)
@@ -257,25 +262,32 @@ func (vc *VC) Query(o *Obligation, forCVC5 bool, withModel bool) string {
 	}
 	sb.WriteString(smtPrelude)
 	sb.WriteString(vc.tt.Decls())
-	sb.WriteString(vc.decls.String())
+	if forCVC5 {
+		sb.WriteString(vc.declsC.String())
+	} else {
+		sb.WriteString(vc.decls.String())
+	}
 	for _, a := range vc.axioms {
 		fmt.Fprintf(&sb, "(assert %s)\n", a)
 	}
 	fmt.Fprintf(&sb, "(assert %s)\n", o.Reach.S)
+	for _, e := range o.Extra {
+		fmt.Fprintf(&sb, "(assert %s)\n", e.S)
+	}
 	if !o.IsCover {
 		fmt.Fprintf(&sb, "(assert (not %s))\n", o.Cond.S)
 	}
 	sb.WriteString("(check-sat)\n")
 	if withModel {
 		var ws []string
+		if o.Taint.Valid() && o.Taint.S != "false" {
+			ws = append(ws, o.Taint.S)
+		}
 		for _, w := range vc.inputs {
 			ws = append(ws, w.T.S)
 			if w.T.Sort == SSlice {
 				// a few leading elements (bytes / ints)
 			}
-		}
-		if o.Taint.Valid() && o.Taint.S != "false" {
-			ws = append(ws, o.Taint.S)
 		}
 		for _, w := range o.Watch {
 			ws = append(ws, w.T.S)
